@@ -62,4 +62,43 @@ example : labelScale (fun _ => (1 / 100 : ℝ)) [("0", 1)] * (labelScale (fun _ 
     ≠ labelScale (fun _ => (100 : ℝ) * (1 / 100)) [("0", 1)] * 1 :=
   wrong_degree_breaks_covariance (1 / 100) 100 1 2 1 (by norm_num) (by norm_num) (by norm_num) (by norm_num) (by norm_num)
 
+/-! ### all hypotheses of `C07_partial_property` hold jointly, over ℝ, on a row of the regenerated table -/
+
+/-- a concrete call: a 3×3 operand `a`, a 3×3 operand `b`, result of 9 elements -/
+def env0 : Env := ⟨fun _ => some [3, 3], 9, fun _ => none, fun _ => 0⟩
+
+/-- every hypothesis of `C07_partial_property` that is not an equation between named terms, as a Boolean -/
+def witnessB (r : Row) : Bool :=
+  r.func == "numpy.linalg.solve" && !r.raised && (Ref.exclC07.all fun e => e.1 != r.func) &&
+  match Ref.expected r.callForm, r.leaves with
+  | .leaves [.units l], [leaf] =>
+    (r.groups.all fun g =>
+      match expectedExpo r l g with
+      | some e => ((expoOf leaf.expo g).reducedParams ++ e.reducedParams).isEmpty
+      | none => true)
+    && decide ((leaf.expo.map (·.1)).Nodup) && (C07.refDegrees r l leaf env0).isSome
+  | _, _ => false
+
+theorem property_hypotheses_jointly_satisfiable :
+    ∃ r ∈ Generated.ruleRows, ∃ leaf ∈ r.leaves, ∃ deg,
+      C07.CovariantLeaf (fun x : ℝ => 0 < x) leaf env0 deg := by
+  have h : (Generated.ruleRows.any witnessB) = true := by decide +kernel
+  obtain ⟨r, hr, hb⟩ := List.any_eq_true.mp h
+  unfold witnessB at hb
+  split at hb
+  · rename_i l leaf hexp hleaves
+    simp only [Bool.and_eq_true, Bool.not_eq_true', decide_eq_true_eq, List.all_eq_true] at hb
+    obtain ⟨⟨⟨_, hnr⟩, hguard⟩, ⟨hvb, hnodup⟩, hsome⟩ := hb
+    obtain ⟨deg, hdeg⟩ := Option.isSome_iff_exists.mp hsome
+    refine ⟨r, hr, leaf, by rw [hleaves]; exact List.mem_singleton.mpr rfl, deg, ?_⟩
+    refine C07.C07_partial_property (fun x : ℝ => 0 < x) real_rpow_laws r hr
+      (by rw [List.all_eq_true]; exact hguard) hnr [.units l] hexp (.units l, leaf)
+      (by rw [hleaves]; simp) l rfl env0 ?_ hnodup deg hdeg
+    intro g hg e he p hp
+    have := hvb g hg
+    simp only [he, List.isEmpty_iff] at this
+    rw [this] at hp
+    simp at hp
+  · simp at hb
+
 end Unyt.C07R
